@@ -49,7 +49,7 @@ fn chain(rng: &mut Rng, d: usize) -> Meta {
 }
 
 fn shape(rng: &mut Rng, idx: usize) -> (String, Option<Meta>) {
-	match idx % 12 {
+	match idx % 13 {
 		0 => ("absent".into(), None),
 		1 => ("empty-map".into(), Some(vec![])),
 		2 => {
@@ -71,6 +71,41 @@ fn shape(rng: &mut Rng, idx: usize) -> (String, Option<Meta>) {
 			// many maps in total (siblings, not depth): more maps than any depth limit
 			let n = *rng.pick(&[128usize, 130, 200, 400]);
 			("many-sibling-maps".into(), Some((0..n).map(|i| (format!("m{}", i), MVal::Map(if i % 3 == 0 { vec![] } else { vec![("a".into(), MVal::Map(vec![("b".into(), MVal::Int(i as i32))]))] }))).collect()))
+		}
+		12 => {
+			// the keys real recorders write, with values nobody expects under them: code that gives a
+			// known key a meaning (a timestamp, a frame count, a nickname) must not choke on them
+			fn odd(rng: &mut Rng) -> MVal {
+				match rng.below(8) {
+					0 => MVal::Str(rng.pick(&["２０２０-08-16T07:02:53Z", "2020年8月16日 午前7時2分53秒", "2020-08-16T07:02:53", "9999-99-99T99:99:99Z", "0000-00-00T00:00:00+00:00", "2020-08-16T07:02:53é", "\u{feff}2020-08-16T07:02:53Z", "-020-08-16T07:02:53Z"]).to_string()),
+					1 => {
+						let n = *rng.pick(&[0usize, 1, 18, 19, 20, 40, 255]);
+						MVal::Str(gen::gen_utf8(rng, n))
+					}
+					2 => MVal::Int(*rng.pick(&[0i32, -1, i32::MIN, i32::MAX, 11238, -124])),
+					3 => MVal::Map(vec![]),
+					4 => MVal::Map(vec![("0".into(), MVal::Str(gen::gen_utf8(rng, 10)))]),
+					5 => MVal::Str(String::new()),
+					6 => MVal::Str("x".repeat(255)),
+					_ => MVal::Str("2020-08-01T19:23:45Z".into()),
+				}
+			}
+			let mut m: Meta = vec![];
+			for k in ["startAt", "lastFrame", "playedOn", "consoleNick", "players"] {
+				if rng.chance(4, 5) {
+					m.push((k.to_string(), odd(rng)));
+				}
+			}
+			if rng.chance(1, 2) {
+				let names: Meta = ["netplay", "code"].iter().map(|k| (k.to_string(), odd(rng))).collect();
+				let player: Meta = vec![("characters".into(), odd(rng)), ("names".into(), MVal::Map(names))];
+				m.retain(|(k, _)| k != "players");
+				m.push(("players".into(), MVal::Map(vec![(rng.below(4).to_string(), MVal::Map(player))])));
+			}
+			// key order as drawn: rotate so that every key is first sometimes
+			let r = rng.below(m.len().max(1));
+			m.rotate_left(r);
+			("real-keys-odd-values".into(), Some(m))
 		}
 		_ => ("random-tree".into(), Some(gen::gen_meta(rng, 4, 5))),
 	}
